@@ -12,7 +12,7 @@ import (
 // zzGauges is a gauge source with an arbitrary non-negative connection vector.
 type zzGauges struct {
 	ports.StatsCollector // remaining methods are never called by the selector
-	m map[string]int64
+	m                    map[string]int64
 }
 
 func (g *zzGauges) GetConnectionStats() map[string]int64 { return g.m }
